@@ -104,13 +104,15 @@ CLAIMED = {
          "execution did not finish in 100 s; the heap ordering itself is C06. Only the listed scripts are claimed.",
     technique="CBMC bounded symbolic execution of task_scheduler.c (+ priority_queue.c, linked_list.inl) on scripted programs with ghost bookkeeping"),
  "C14": dict(
-    text="Truncation clause of the formatter: aws_format_standard_log_line into a fixed-size buffer of 2..16 (quick) / 2..40 bytes, with every "
+    text="Level gate + foreground channel: a pipeline logger over the REAL foreground channel, K=2..3 AWS_LOGF calls with symbolic levels, symbolic "
+         "initial level and one level change at a symbolic position: a call produces exactly one line iff its level is at or below the active "
+         "level, lines reach the writer once each, in call order, each the line of its own call, with the channel mutex held during the write "
+         "and released afterwards. Truncation clause of the formatter: aws_format_standard_log_line into a fixed-size buffer of 2..16 (quick) / 2..40 bytes, with every "
          "snprintf/vsnprintf result length (0..size+3, or failure), every produced character and the timestamp length symbolic -- i.e. every "
          "possible truncation point of every piece: all stores stay inside the buffer, amount_written <= total_length, the line ends in a "
          "newline, contains no NUL and exactly one newline, also when it had to be cut.",
-    note="libc formatting replaced by a C99-contract stub (part of the claim). NOT decided: the level gate, exactly-once delivery and the "
-         "foreground/background channels (log_channel.c needs thread interleavings CBMC cannot explore for pointer-sharing threads, and the "
-         "sequentialised harness was not built in this round). A genuine defect (cut lines ended in NULs, no newline) was found and fixed.",
+    note="libc formatting replaced by a C99-contract stub (part of the claim). NOT decided: the background channel (thread interleavings), line "
+         "ownership/freeing (heap aws_string objects stall CBMC; the gate harness uses static lines), real writers. A genuine defect (cut lines ended in NULs, no newline) was found and fixed.",
     technique="CBMC bounded symbolic execution of log_formatter.c with contract stubs for libc formatting; all truncation points as solver variables"),
  "C02": dict(
     text="Hash table at 4 slots (max load 3): from an ARBITRARY state satisfying the representation invariant (stored hash == hash_fn(key) with "
@@ -135,6 +137,18 @@ CLAIMED = {
          "are stubs that record their argument and return a symbolic instant. A genuine defect (RFC 822 without weekday lost the first day digit) "
          "was found and fixed.",
     technique="CBMC bounded symbolic execution of date_time.c parsers over fixed textual shapes with symbolic digits (SAT kissat; cvc5 bv-as-int for epoch views)"),
+ "C20": dict(
+    text="Joinable threads (programs J, JJ; JJJ in the thorough tier): the real aws_thread_launch / thread_fn / aws_thread_join / "
+         "aws_thread_current_at_exit code runs over a sequentialising pthread model in which the solver decides whether each created thread runs "
+         "immediately at pthread_create or only when somebody joins it: each function runs exactly once with the argument given at launch, on "
+         "its own thread; join returns only after the function and both at-exit callbacks have completed; at-exit callbacks run once each, on "
+         "that thread, in reverse order of registration; no thread is joined twice or joins itself; the wrapper and every at-exit record are "
+         "released exactly once.",
+    note="PARTIAL: every program containing a MANAGED thread (M, MM, MJ, Lm ...) exceeded 12 GB / 300 s (lazy-join list plus recursion through "
+         "pthread_join), so join_all_managed, the managed-thread count and 'threads that launch further managed threads' are NOT decided. Threads are "
+         "sequentialised (stack-like nesting only); pthread_*, mutex, condition variable and clock are harness stubs; typed static pools replace the "
+         "allocator for the two object kinds the thread code allocates.",
+    technique="CBMC bounded symbolic execution of posix/thread.c + thread_shared.c over a sequentialising pthread model with solver-chosen schedule"),
 }
 NA = {
  "C03": "small-block allocator: its page lookup masks addresses (addr & ~(PAGE-1)) over a pointer-rich heap; from-init histories did not finish symbolic "
@@ -148,11 +162,11 @@ NA = {
         "not a solver verdict over inputs, so it is not claimed. Memory safety of the parser on arbitrary short documents is part of C04.",
  "C17": "memory tracer: histories go through aws_hash_table with 1024 slots and lookup3 over pointer bytes; the 4-slot hash-table steps alone need 3-13 minutes "
         "each (C02) and from-init hash-table use exhausts 12 GB, so a tracer history is out of reach; the thread clause needs interleavings CBMC rejects",
- "C18": "linked hash table and caches are built on aws_hash_table from aws_hash_table_init: that constructor and the resize step exhaust 12 GB under CBMC (C02), "
-        "so no cache program can be encoded within reach",
+ "C18": "linked hash table and caches: harness with a reference ordered map was built (harness/C18, function-pointer targets restricted so that the destructor "
+        "chain is no longer 'recursive'); programs with one put or put+find/remove are decided in 5-20 s, but every program with TWO puts (the first that "
+        "makes order, replacement or eviction observable) exhausts 12 GB in CBMC's propositional reduction even with concrete hash values, and with "
+        "fully concrete keys the run is enumeration, not a solver verdict; so nothing meaningful about order/eviction can be claimed",
  "C19": "date-time: formatting and the calendar are glibc's strftime/timegm/gmtime_r (outside /repo, no encodable semantics); the library's own parsers "
         "were planned (DESIGN.md C19) but not reached in this round",
- "C20": "threads: launch/join/at-exit/managed-thread bookkeeping is only observable through interleavings of pthread-created, pointer-sharing threads, which CBMC "
-        "rejects ('pointer handling for concurrency is unsound'); the sequentialised harness planned in DESIGN.md 4.5 was not reached in this round",
 }
 NOT_APPLICABLE = {p: NA.get(p, PENDING) for p in ["C%02d" % i for i in range(1, 21)]}
